@@ -88,6 +88,7 @@ func c14cli(c *Ctx, items []corpus.Item, tmp string) {
 		return
 	}
 	defer server.Stop()
+	c14flags(c, gbin, server, items, tmp)
 	pub, _ := json.Marshal(c14key.Public())
 	n := c.N(1500, 40000)
 	rng := newRng(c.Seed, 4242)
